@@ -23,7 +23,6 @@ import Garnish.Model.Runtime.BasicStore
 namespace Garnish.Lemmas.BasicBuilderIntern
 open Garnish Garnish.Gen Garnish.Abs Garnish.BasicOpt Garnish.Model.Runtime.Basic
 open Garnish.Lemmas.Runtime.On
-open Garnish.Lemmas.BuilderIntern (Ext ext_push)
 
 variable {F : Type}
 
@@ -38,43 +37,46 @@ theorem footprint_cons (txt : List Nat) (v : Val F) : ∃ rest, footprint txt v 
   cases v <;> exact ⟨_, rfl⟩
 
 /-- the calls in order (`k` = index of the first): the data block they leave and the addresses they returned -/
-def addAllB (symText : Nat → List Nat) : Nat → List (Val F) → Array (Val F) → Array (Val F) × List Nat
+def addAllB (symText : Nat → List Nat) : Nat → List (Val F) → List (Val F) → List (Val F) × List Nat
   | _, [], C => (C, [])
   | k, v :: vs, C =>
-    ((addAllB symText (k + 1) vs (C ++ (footprint (symText k) v).toArray)).1,
-      C.size :: (addAllB symText (k + 1) vs (C ++ (footprint (symText k) v).toArray)).2)
+    ((addAllB symText (k + 1) vs (C ++ footprint (symText k) v)).1,
+      C.length :: (addAllB symText (k + 1) vs (C ++ footprint (symText k) v)).2)
 
-def basicBuilderData (symText : Nat → List Nat) (P : Prog F) : Array (Val F) := (addAllB symText 0 P.consts.toList #[]).1
+def basicBuilderData (symText : Nat → List Nat) (P : Prog F) : Array (Val F) := (addAllB symText 0 P.consts.toList []).1.toArray
 
 def basicBuilderAddr (symText : Nat → List Nat) (P : Prog F) (k : Nat) : Nat :=
-  ((addAllB symText 0 P.consts.toList #[]).2[k]?).getD ((basicBuilderData symText P).size + k)
+  ((addAllB symText 0 P.consts.toList []).2[k]?).getD ((addAllB symText 0 P.consts.toList []).1.length + k)
 
-theorem ext_append (C : Array (Val F)) (l : List (Val F)) : Ext C (C ++ l.toArray) := by
+/-- `C'` extends `C` -/
+def ExtL (C C' : List (Val F)) : Prop := ∀ (a : Nat) (v : Val F), C[a]? = some v → C'[a]? = some v
+
+theorem ext_append (C l : List (Val F)) : ExtL C (C ++ l) := by
   intro a w h
-  have hlt : a < C.size := by
-    rcases Nat.lt_or_ge a C.size with h1 | h1
+  have hlt : a < C.length := by
+    rcases Nat.lt_or_ge a C.length with h1 | h1
     · exact h1
-    · rw [Array.getElem?_eq_none h1] at h; cases h
-  rw [Array.getElem?_append_left hlt]; exact h
+    · rw [List.getElem?_eq_none h1] at h; cases h
+  rw [List.getElem?_append_left hlt]; exact h
 
-theorem addAllB_spec (symText : Nat → List Nat) : ∀ (vs : List (Val F)) (k : Nat) (C : Array (Val F)),
-    Ext C (addAllB symText k vs C).1 ∧ (addAllB symText k vs C).2.length = vs.length ∧
+theorem addAllB_spec (symText : Nat → List Nat) : ∀ (vs : List (Val F)) (k : Nat) (C : List (Val F)),
+    ExtL C (addAllB symText k vs C).1 ∧ (addAllB symText k vs C).2.length = vs.length ∧
       ∀ (i : Nat) (v : Val F), vs[i]? = some v →
         ∃ a, (addAllB symText k vs C).2[i]? = some a ∧ (addAllB symText k vs C).1[a]? = some v := by
   intro vs
   induction vs with
-  | nil => intro k C; exact ⟨Ext.refl C, rfl, fun i v h => by cases h⟩
+  | nil => intro k C; exact ⟨fun _ _ h => h, rfl, fun i v h => by cases h⟩
   | cons v vs ih =>
     intro k C
-    obtain ⟨g1, g2, g3⟩ := ih (k + 1) (C ++ (footprint (symText k) v).toArray)
-    refine ⟨(ext_append C _).trans g1, by simp [addAllB, g2], fun i w hi => ?_⟩
+    obtain ⟨g1, g2, g3⟩ := ih (k + 1) (C ++ footprint (symText k) v)
+    refine ⟨fun a w h => g1 a w (ext_append C _ a w h), by simp [addAllB, g2], fun i w hi => ?_⟩
     cases i with
     | zero =>
       simp only [List.getElem?_cons_zero, Option.some.injEq] at hi
       subst hi
-      refine ⟨C.size, rfl, g1 _ _ ?_⟩
+      refine ⟨C.length, rfl, g1 _ _ ?_⟩
       obtain ⟨rest, hr⟩ := footprint_cons (symText k) v
-      rw [hr, Array.getElem?_append_right (Nat.le_refl _)]
+      rw [hr, List.getElem?_append_right (Nat.le_refl _)]
       simp
     | succ i =>
       simp only [List.getElem?_cons_succ] at hi
@@ -84,26 +86,52 @@ theorem addAllB_spec (symText : Nat → List Nat) : ∀ (vs : List (Val F)) (k :
 /-- **Basic's own address map agrees with the constants** — whatever they are -/
 theorem basic_builder_constsAgree (symText : Nat → List Nat) (P : Prog F) :
     ConstsAgree (basicBuilderAddr symText P) (basicBuilderData symText P) P := by
-  obtain ⟨_, hlen, hget⟩ := addAllB_spec symText P.consts.toList 0 (#[] : Array (Val F))
+  obtain ⟨_, hlen, hget⟩ := addAllB_spec symText P.consts.toList 0 ([] : List (Val F))
   intro k
   cases hk : P.consts[k]? with
   | some v =>
     have hk' : P.consts.toList[k]? = some v := by simpa using hk
     obtain ⟨a, ha1, ha2⟩ := hget k v hk'
     show (basicBuilderData symText P)[basicBuilderAddr symText P k]? = some v
-    unfold basicBuilderAddr
-    rw [ha1]; exact ha2
+    unfold basicBuilderAddr basicBuilderData
+    rw [ha1]; simpa using ha2
   | none =>
     have hge : P.consts.size ≤ k := by
       rcases Nat.lt_or_ge k P.consts.size with h | h
       · rw [Array.getElem?_eq_getElem h] at hk; cases hk
       · exact h
-    have hnone : (addAllB symText 0 P.consts.toList (#[] : Array (Val F))).2[k]? = none := by
+    have hnone : (addAllB symText 0 P.consts.toList ([] : List (Val F))).2[k]? = none := by
       apply List.getElem?_eq_none; rw [hlen]; simpa using hge
     show (basicBuilderData symText P)[basicBuilderAddr symText P k]? = none
-    unfold basicBuilderAddr
+    unfold basicBuilderAddr basicBuilderData
     rw [hnone]
     exact Array.getElem?_eq_none (by simp)
+
+/-- one cell per constant (no char list, byte list or symbol): the addresses are the indexes -/
+theorem addAllB_single (symText : Nat → List Nat) : ∀ (vs : List (Val F)) (k : Nat) (C : List (Val F)),
+    (∀ v, v ∈ vs → ∀ t, footprint t v = [v]) →
+    ∀ i, i < vs.length → (addAllB symText k vs C).2[i]? = some (C.length + i) := by
+  intro vs
+  induction vs with
+  | nil => intro k C _ i hi; cases hi
+  | cons v vs ih =>
+    intro k C hs i hi
+    cases i with
+    | zero => simp [addAllB]
+    | succ i =>
+      have := ih (k + 1) (C ++ footprint (symText k) v) (fun w hw => hs w (List.mem_cons_of_mem _ hw)) i
+        (by simpa using hi)
+      rw [hs v List.mem_cons_self] at this
+      simp only [addAllB, List.getElem?_cons_succ]
+      rw [hs v List.mem_cons_self, this]
+      simp; omega
+
+theorem basicBuilderAddr_single (symText : Nat → List Nat) (P : Prog F)
+    (hs : ∀ v, v ∈ P.consts.toList → ∀ t, footprint t v = [v]) (k : Nat) (hk : k < P.consts.size) :
+    basicBuilderAddr symText P k = k := by
+  unfold basicBuilderAddr
+  rw [addAllB_single symText P.consts.toList 0 [] hs k (by simpa using hk)]
+  simp
 
 /-! ### the replay on the heap model -/
 
@@ -177,17 +205,17 @@ theorem pushAll_roomy : ∀ (l : List Cell) (s : Store), Roomy s →
 
 /-- **the replay is `push_to_data_block`, cell for cell**: on a data block that can grow and holds as many cells as the
 value-level view, the heap model answers with the same addresses and ends with as many cells -/
-theorem basic_replay_is_push (nc : NumCode F) (symText : Nat → List Nat) : ∀ (vs : List (Val F)) (k : Nat) (C : Array (Val F))
-    (s : Store), Roomy s → s.cells.size = C.size →
+theorem basic_replay_is_push (nc : NumCode F) (symText : Nat → List Nat) : ∀ (vs : List (Val F)) (k : Nat) (C : List (Val F))
+    (s : Store), Roomy s → s.cells.size = C.length →
     ∃ s', replayB nc symText k vs s = .ok (s', (addAllB symText k vs C).2) ∧
-      s'.cells.size = (addAllB symText k vs C).1.size ∧ Roomy s' := by
+      s'.cells.size = (addAllB symText k vs C).1.length ∧ Roomy s' := by
   intro vs
   induction vs with
   | nil => intro k C s h hs; exact ⟨s, rfl, hs, h⟩
   | cons v vs ih =>
     intro k C s h hs
     obtain ⟨s1, h1, h2, h3⟩ := pushAll_roomy (cellsOf nc (symText k) v) s h
-    have hs1 : s1.cells.size = (C ++ (footprint (symText k) v).toArray).size := by
+    have hs1 : s1.cells.size = (C ++ footprint (symText k) v).length := by
       rw [h2]; simp [hs, cellsOf_length]
     obtain ⟨s2, g1, g2, g3⟩ := ih (k + 1) _ s1 h3 hs1
     refine ⟨s2, ?_, g2, g3⟩
